@@ -605,7 +605,7 @@ fn flip(op: &str) -> String {
 }
 
 const INT_TOKS: [&str; 8] = ["0", "1", "-1", "2", "9007199254740992", "9007199254740993", "9223372036854775807", "-9223372036854775808"];
-const REAL_TOKS: [&str; 12] = ["0.0", "-0.0", "1.0", "1.5", "-1.0", "0.5", "9007199254740992.0", "9223372036854775808.0", "-9223372036854775808.0", "inf", "-inf", "NaN"];
+const REAL_TOKS: [&str; 14] = ["-0.5", "-1.5", "0.0", "-0.0", "1.0", "1.5", "-1.0", "0.5", "9007199254740992.0", "9223372036854775808.0", "-9223372036854775808.0", "inf", "-inf", "NaN"];
 
 pub fn run(ctx: &Ctx) -> i32 {
     let col = Collector::new();
